@@ -1253,6 +1253,8 @@ class Concatenate(CanBehaveLikeAVariable[T]):
             yield sources
             return
         all_values = defaultdict(list)
+        # The combined value exists (as the empty list) also when the child yields nothing.
+        all_values[self._id_] = []
         for child_v in self._child_._evaluate__(sources):
             child_v = copy(child_v)
             for id_, val in child_v.items():
